@@ -508,7 +508,7 @@ func alphabet(w *World) (out []Class) {
 			continue
 		}
 		_, isLoc := locatorVariant(c)
-		if isLoc || c == "txo2" || c == "cmpctblock4" || c == "blocktxn2" || c == "idle" { // ContextOnly in the specification
+		if isLoc || isEnv(c) || c == "txo2" || c == "cmpctblock4" || c == "blocktxn2" || c == "idle" { // ContextOnly in the specification
 			out = append(out, Class{c, "valid", 0})
 			continue
 		}
